@@ -29,6 +29,10 @@ def check_case(case, ctx):
     de, dl = _mods()
     latlon = case["metric"] == "latlon"
     path = [tuple(p) for p in case["trace"]]
+    if latlon and any(gs.dist(a, b) > 1.5e7 for a, b in zip(path, path[1:])):
+        # a leg near half the circumference has no well-defined (minor-arc) great-circle connection: outside the generator's domain
+        ctx.record(case, False, ["skipped:near-antipodal-leg"])
+        return
     dd = case["spacing"]
     out = base.pkg((dl if latlon else de).interpolate_path, list(path), dd)
     out = [tuple(p[:2]) for p in out]
@@ -132,7 +136,11 @@ def _latlon(draw):
             pts.append(gs.local_to_latlon(origin, y, x))
     if ext == "long-haul":
         # keep every leg below ~120 degrees of arc so that "the" great-circle connection is the minor arc by a wide margin
-        pts = [p for i, p in enumerate(pts) if i == 0 or gs.dist(pts[i - 1], p) < 1.3e7]
+        kept = []
+        for p in pts:
+            if not kept or gs.dist(kept[-1], p) < 1.3e7:
+                kept.append(p)
+        pts = kept
         ext = 1.0e7
     hops = [gs.dist(a, b) for a, b in zip(pts, pts[1:]) if a != b] or [ext]
     mode = draw(st.integers(0, 2))
